@@ -3,6 +3,7 @@ import IsoVerif.Model.Cigar
 import IsoVerif.Model.PolyA
 import IsoVerif.Model.PolyAFinder
 import IsoVerif.Model.TailSpec
+import IsoVerif.Model.FinderChar
 
 namespace IsoVerif.Driver.C16
 open Lean IsoVerif.Driver IsoVerif.Gen IsoVerif.Model IsoVerif.Model.C16
@@ -66,6 +67,27 @@ def ops : List (String × Handler) := [
   ("find_polya", fun j => do
       let seq ← jStr (← arg j "seq")
       pure (ofOptNatOrMinus1 (findPolya (← jNat (← arg j "w")) (← jNat (← arg j "c")) (seq.toList.map (· == 'A'))))),
+  -- the brute-force specification of the window scan (Model/FinderChar.lean), compared with the real code as well
+  ("find_polya_spec", fun j => do
+      let seq ← jStr (← arg j "seq")
+      pure (ofOptNatOrMinus1 (findPolyaSpec (← jNat (← arg j "w")) (← jNat (← arg j "c")) (seq.toList.map (· == 'A'))))),
+  -- the specifications of the two tail finders (brute-force scan + base-by-base projection)
+  ("find_polya_tail_spec", fun j => do
+      match ← jCigar (← arg j "cigar") with
+      | none => pure (jErr "error")
+      | some c =>
+        let seq ← jStr (← arg j "seq")
+        pure (ofOptInt (findPolyaTailSpec (← jNat (← arg j "w")) (← jNat (← arg j "num")) (← jNat (← arg j "den"))
+          (← jInt (← arg j "s")) c seq.toList (← jInt (← arg j "from")) (← jInt (← arg j "to"))
+          (← jBool (← arg j "chk"))))),
+  ("find_polyt_head_spec", fun j => do
+      match ← jCigar (← arg j "cigar") with
+      | none => pure (jErr "error")
+      | some c =>
+        let seq ← jStr (← arg j "seq")
+        pure (ofOptInt (findPolytHeadSpec (← jNat (← arg j "w")) (← jNat (← arg j "num")) (← jNat (← arg j "den"))
+          (← jInt (← arg j "s")) c seq.toList (← jInt (← arg j "from")) (← jInt (← arg j "to"))
+          (← jBool (← arg j "chk"))))),
   ("move_ref_coord", fun j => do
       match ← jCigar (← arg j "cigar") with
       | none => pure (jErr "error")
